@@ -76,6 +76,11 @@ def cases(rng, tier):
         yield "mn_bits_ok %d" % n, "helper-bits-ok"
     for n in SIZES:
         yield "mn_from_ent " + sx(rb(n).hex()), "after-helpers"
+    # the sentence a wallet REPORTS for its entropy, read after another wallet has been created
+    for n in SIZES:
+        a_, b_ = rb(n).hex(), rb(rng.choice(SIZES)).hex()
+        yield "wallet_held ent:%s:-:-:%s ent:%s:-:-:%s" % (sx(a_), rng.choice("01"), sx(b_), rng.choice("01")), "held-wallet-mnemonic"
+        yield "wallet ent:%s:-:-:0" % sx(a_), "wallet-mnemonic"
 
 
 def nontrivial(line, out):
@@ -98,6 +103,14 @@ def words():
 def oracle(line, out):
     op, arg = line.split(" ")[:2]
     v = ok_val(out)
+    if op in ("wallet", "wallet_held"):
+        e = unstr(arg.split(":")[1])
+        if v is None:
+            return "wallet from valid entropy failed"
+        got_mn = v.split(" ")[13]           # "s<hex of the text>" or "-"
+        if not got_mn.startswith("s"):
+            return "wallet reports no mnemonic"
+        return oracle("mn_from_ent " + sx(e), "ok " + got_mn[1:])
     if op in ("mn_slen", "mn_cslen", "mn_bits_ok"):
         n = int(arg)
         if op == "mn_bits_ok":
